@@ -456,6 +456,16 @@ def paramDeps (kind : LinkKind) : List (String × String) :=
              ("minor_loss", "minor_loss_param"), ("diameter", "minor_loss_param")]
   | _ => [("setting", "valve_setting_param"), ("minor_loss", "minor_loss_param"), ("diameter", "minor_loss_param")]
 
+/-- the CURRENT link attributes each parameter is a function of (documented formulas: `k(C, d, L)`, `8K/(gπ²d⁴)` with K the
+minor-loss coefficient resp. the TCV's current setting, the pump's power, the valve's current setting) -/
+def paramAttrs : String → List String
+  | "hw_resistance_param" => ["diameter", "length", "roughness"]
+  | "minor_loss_param" => ["diameter", "minor_loss"]
+  | "tcv_resistance_param" => ["diameter", "setting"]
+  | "pump_power_param" => ["power"]
+  | "valve_setting_param" => ["setting"]
+  | _ => []
+
 /-- what a junction's mass-balance row depends on -/
 def balanceDeps (pdd : Bool) : List (String × String) :=
   let cls := if pdd then "pdd_mass_balance_constraint" else "mass_balance_constraint"
